@@ -286,7 +286,7 @@ def dict_laws(cx, line, reply, balanced):
     if reply[0] != "ok" or len(reply) - 1 < len(ops):
         return
     toks = reply[1:]
-    case = {"line": line if len(line) < 3000 else line[:3000] + "…", "reply": " ".join(reply)[:1500]}
+    case = {"line": line, "reply": " ".join(reply)[:1500]}
     if "LEAK" in toks:
         cx.fail("dict", "dictionary history leaks memory (LeakSanitizer) although every string was released", dict(case))
     ref = {}
@@ -346,7 +346,7 @@ def locate_leak(cx, lines, ri):
                     ri[w.split()[0]] = rr[w.split()[0]]          # the laws below report it with this history as the failing input
                     break
             else:
-                cx.fail("ht", "LeakSanitizer reports a leak after a window of histories; not reproduced on the window alone", {"line": l[:3000]})
+                cx.fail("ht", "LeakSanitizer reports a leak after a window of histories; not reproduced on the window alone", {"line": l})
             for x in lines:                                       # a leak persists: later periodic reports are the same one
                 r = ri.get(x.split()[0])
                 if r and x is not w and "LEAK" in r:
@@ -424,7 +424,7 @@ def run_ht(cx):
             last = ri.get(t[0], ["err"])[-1]
             cx.count(("balanced", l), True, "dict:balanced-history")
             if not last.endswith(":0:-"):
-                cx.fail("dict", "balanced history does not end with the empty dictionary", {"line": l[:3000], "last": last[:500]})
+                cx.fail("dict", "balanced history does not end with the empty dictionary", {"line": l, "last": last[:500]})
     cx.dist["ht:ops-total"] += nops
     # the known corner F50 (hash as a parameter: every collision is possible) — witnesses evaluated on the implementation
     wl = ["%d ht %s" % (i, w.replace("dict ", dop, 1)) for i, w in enumerate(F50_WITNESSES)]
